@@ -8,6 +8,6 @@ git -C /repo archive HEAD | tar -x -C "$T"
 ( cd "$T" && git init -q . >/dev/null 2>&1 && git apply "$SD/patch.diff" ) || { echo "PATCH DOES NOT APPLY"; rm -rf "$T"; exit 3; }
 for P in "$@"; do
   echo "== $P on $(basename $SD)"
-  VERIF_REPO="$T" PV_NO_EVIDENCE=1 /verif/bin/pv check "$P" --tier quick 2>&1 | grep -E "VIOLATION|MACHINERY|events validated" | cut -c1-200 | sed "s#replay=.*##" | sort | uniq -c | sort -rn | head -4
+  VERIF_REPO="$T" PV_NO_EVIDENCE=1 /verif/bin/pv check "$P" --tier quick 2>&1 | grep -E "^VIOLATION|MACHINERY|events validated|^SPEC-EXTENSION" | cut -c1-200 | sed "s#replay=.*##" | sort | uniq -c | sort -rn | head -4
 done
 rm -rf "$T"
